@@ -315,7 +315,7 @@ theorem opSetRelations_callbacks (hro : ReadOnly run S rec) (run0 : ProbeRunner)
      (changedRels w e rels ≠ [] ∧ ∃ (w1 : World), RelLooked w.noObs w1 ∧
         opSetRelations run p e mapperIds rels w = .ok ()
           (setRelResult rec w w1 w0 e (Mask.ofList (changedRels w e rels)) (w.maskOf e) l1 l2))) := by
-  rcases preCheck_of_noObs p mapperIds rels w with ⟨h1, h2'⟩ | ⟨k', h1, _⟩
+  rcases preCheck_of_noObs p.setRelCheck mapperIds rels w with ⟨h1, h2'⟩ | ⟨k', h1, _⟩
   · simp only [opSetRelations, bind, M.bind, h1] at h0
     simp only [opSetRelations, bind, M.bind, h2']
     exact setRelationsCore_callbacks hro run0 hs h hl h2 hnf ha hsl hne hnd hhas htin hfew hrows hL h0
